@@ -443,8 +443,7 @@ func symConvScalar(fr *frame, dst types.BasicKind, x sym) value {
 		v := fr.i.run.concretize(x, "int->float")
 		return conv(types.Typ[dst], types.Typ[x.k], v)
 	case types.String:
-		v := fr.i.run.concretize(x, "int->string")
-		return conv(types.Typ[dst], types.Typ[x.k], v)
+		return mkString(fr.i.run.runeBytes(x))
 	}
 	return mkScalar(c.Resize(x.t, kindWidth(dst), kindSigned(x.k)), dst)
 }
@@ -502,3 +501,43 @@ type rtError string
 func (e rtError) Error() string   { return "runtime error: " + string(e) }
 func (e rtError) RuntimeError()   {}
 func (e rtError) String() string  { return e.Error() }
+
+// asciiByte: if the symbolic integer x is (on this path, after one decision) in
+// [0,0x80) its UTF-8 encoding is the single byte x; returns that byte.
+func (r *pathRun) asciiByte(x sym) (value, bool) {
+	c := r.ctx
+	t := c.Resize(x.t, 64, kindSigned(x.k))
+	ascii := c.And(c.Bin(OpSLe, c.Const(64, 0), t), c.Bin(OpSLt, t, c.Const(64, 0x80)))
+	if !r.decide(ascii, "ascii-rune") {
+		return nil, false
+	}
+	return mkScalar(c.Extract(x.t, 7, 0), types.Uint8), true
+}
+
+// runeBytes is the UTF-8 encoding of a symbolic rune as symbolic bytes; it forks
+// only over the length class of the encoding (and the invalid ranges).
+func (r *pathRun) runeBytes(x sym) []value {
+	c := r.ctx
+	t := c.Resize(x.t, 32, kindSigned(x.k))
+	lt := func(n uint64) *Term { return c.Bin(OpULt, t, c.Const(32, n)) }
+	byteOf := func(hi byte, shift uint, maskv uint64) value {
+		v := c.Bin(OpBAnd, c.Bin(OpLShr, t, c.Const(32, uint64(shift))), c.Const(32, maskv))
+		return mkScalar(c.Extract(c.Bin(OpBOr, v, c.Const(32, uint64(hi))), 7, 0), types.Uint8)
+	}
+	bad := []value{uint8(0xEF), uint8(0xBF), uint8(0xBD)}
+	switch {
+	case r.decide(lt(0x80), "rune-1byte"):
+		return []value{mkScalar(c.Extract(t, 7, 0), types.Uint8)}
+	case r.decide(lt(0x800), "rune-2byte"):
+		return []value{byteOf(0xC0, 6, 0x1F), byteOf(0x80, 0, 0x3F)}
+	case r.decide(lt(0x10000), "rune-3byte"):
+		sur := c.And(c.Not(lt(0xD800)), lt(0xE000))
+		if r.decide(sur, "rune-surrogate") {
+			return bad
+		}
+		return []value{byteOf(0xE0, 12, 0x0F), byteOf(0x80, 6, 0x3F), byteOf(0x80, 0, 0x3F)}
+	case r.decide(lt(0x110000), "rune-4byte"):
+		return []value{byteOf(0xF0, 18, 0x07), byteOf(0x80, 12, 0x3F), byteOf(0x80, 6, 0x3F), byteOf(0x80, 0, 0x3F)}
+	}
+	return bad
+}
